@@ -19,8 +19,14 @@ class BlockingIO(BlockingIOError):
     pass
 
 
+class Runaway(BaseException):
+    """the code under test keeps sending / polling far beyond any proved bound (BaseException so that no
+    `except Exception` inside it swallows the stop)"""
+
+
 class Net(object):
     def __init__(self, machine, script, clock_jitter=None):
+        self.limit_events = None  # set by a harness: stop a run-away loop after this many log events
         self.now = 0
         self.machine = machine
         self.script = script
@@ -36,6 +42,8 @@ class Net(object):
 
     # -- clock ---------------------------------------------------------------
     def time(self):
+        if self.limit_events is not None and len(self.log) > self.limit_events:
+            raise Runaway("more than %d socket/clock events" % self.limit_events)
         self.now += self.jitter()
         self.log.append(("t", self.now))
         return float(self.now)
@@ -74,6 +82,8 @@ class Net(object):
         return any(q[0] <= self.now for q in self.queue)
 
     def select(self, r, w, x, timeout=None):
+        if self.limit_events is not None and len(self.log) > self.limit_events:
+            raise Runaway("more than %d socket/clock events" % self.limit_events)
         if self.readable():
             self.log.append(("select", True))
             return (list(r), [], [])
